@@ -279,8 +279,8 @@ func (c *directCell) run() (obs string) {
 // judge compares an observation of the real code with the declarative spec.
 func judge(o *hx.Out, k int, layer string, u *universe, e *env, ss []signer, h util.Uint160, obs string, desc func() string) {
 	want, why := e.specWitness(ss, h)
-	if !e.frames[0].rs && (obs == "true" || obs == "false") {
-		// group lookups need ReadStates: without the flag a boolean outcome cannot depend on any manifest
+	if !e.frames[0].rs && obs == fmt.Sprint(want) {
+		// group lookups need ReadStates: without the flag a (correct) boolean outcome cannot depend on any manifest
 		for _, v := range e.groupVariants(u.keys) {
 			if w, _ := v.specWitness(ss, h); fmt.Sprint(w) != obs {
 				o.Fail("witness-reads-groups-without-readstates", k, "%s: real=%s but with other manifests the spec is %v: %s", layer, obs, w, desc())
